@@ -97,6 +97,23 @@ def gen_tree(rng, depth, dtype, p, q, tgen, flavour="general"):
             z = (W @ x0).detach()
             dense = (1 + 0.2 * z).unsqueeze(-1) * W
             return op, dense, ["jac", p, q]
+        if kind == "mv" and rng.random() < 0.15:
+            # a structurally zero block: its product is a fresh tensor of zeros that is not connected to the vector in autograd
+            shape_ = (*batch, p, q)
+
+            class ZeroOp(xitorch.LinearOperator):
+                def __init__(self):
+                    super().__init__(shape=shape_, dtype=dtype, device=torch.device("cpu"))
+
+                def _mv(self, x):
+                    bs = torch.broadcast_shapes(tuple(x.shape[:-1]), tuple(batch))
+                    return torch.zeros(*bs, p, dtype=x.dtype)
+
+                def _getparamnames(self, prefix=""):
+                    return []
+            info["leaf_kinds"].add("zero_mv")
+            info["zero_leaves"] = info.get("zero_leaves", 0) + 1
+            return ZeroOp(), torch.zeros(*batch, p, q, dtype=dtype), ["zero_mv", list(batch), p, q]
         mat = torch.randn(*batch, p, q, dtype=dtype, generator=tgen)
         if kind in ("herm_mv", "dense_herm", "herm_all"):
             mat = mat + mat.transpose(-2, -1).conj()
